@@ -198,6 +198,83 @@ fn run_case(c: &Case) -> CaseOut {
             );
             CaseOut { in_line, exp_line, oracle_failures, stats }
         }
+        "parse" => {
+            use pasfmt_core::prelude::*;
+            use pasfmt_core::verif::ParserOp;
+            let raw = DelphiLexer {}.lex(&c.input);
+            let kinds: Vec<String> = raw.iter().map(|t| format!("{:?}", t.get_token_type())).collect();
+            let n = raw.len();
+            pasfmt_core::verif::start();
+            let (lines, _tokens) = DelphiLogicalLineParser {}.parse(raw);
+            let ops = pasfmt_core::verif::take();
+            // group ops by pass
+            let mut passes: Vec<(Vec<usize>, Vec<String>)> = vec![];
+            let mut n_ops = 0usize;
+            for op in &ops {
+                match op {
+                    ParserOp::PassStart(p) => passes.push((p.clone(), vec![])),
+                    ParserOp::PassEnd => {}
+                    other => {
+                        n_ops += 1;
+                        let enc = match other {
+                            ParserOp::Next => "N".to_string(),
+                            ParserOp::Skip => "S".to_string(),
+                            ParserOp::FinishEmpty => "E".to_string(),
+                            ParserOp::Finish(p, l) => format!("F{}:{}", p.map_or("-".to_string(), |(a, b)| format!("{}.{}", a, b)), l),
+                            ParserOp::MarkUnfinished => "U".to_string(),
+                            ParserOp::PushLine(a, b) => format!("P{}.{}", a, b),
+                            ParserOp::PopLine => "p".to_string(),
+                            ParserOp::PushLast => "L".to_string(),
+                            ParserOp::PopLast => "l".to_string(),
+                            ParserOp::SetType(t) => format!("T{}", t),
+                            _ => unreachable!(),
+                        };
+                        if let Some(last) = passes.last_mut() {
+                            last.1.push(enc);
+                        }
+                    }
+                }
+            }
+            bump(&mut stats, "tokens", n);
+            bump(&mut stats, "passes", passes.len());
+            bump(&mut stats, "machine_ops", n_ops);
+            bump(&mut stats, "lines", lines.len());
+            // polynomial-work counters (C04): passes <= 1 + number of else-type directives; ops linear per pass
+            let n_else = kinds.iter().filter(|k| k.starts_with("ConditionalDirective(Else")).count();
+            let n_if = kinds.iter().filter(|k| k.starts_with("ConditionalDirective(If")).count();
+            if passes.len() > 1 + n_else + n_if {
+                oracle_failures.push(format!("c04: {} conditional-directive passes for {} else-type and {} if-type directives", passes.len(), n_else, n_if));
+            }
+            if n_ops > 40 * (n + 1) * passes.len().max(1) {
+                oracle_failures.push(format!("c04: {} parser primitive operations for {} tokens and {} passes", n_ops, n, passes.len()));
+            }
+            oracle_failures.extend(oracles::c14_lines(&c.input, c.well_formed));
+            let snap_lines: Vec<stages::LineSnap> = lines
+                .iter()
+                .map(|l| stages::LineSnap {
+                    line_type: format!("{:?}", l.get_line_type()),
+                    level: l.get_level(),
+                    parent: l.get_parent().map(|p| (p.line_index, p.global_token_index)),
+                    tokens: l.get_tokens().clone(),
+                })
+                .collect();
+            let passes_in = if passes.is_empty() {
+                "-".to_string()
+            } else {
+                passes.iter().map(|(p, o)| format!("{}|{}", if p.is_empty() { "-".to_string() } else { p.iter().map(|x| x.to_string()).collect::<Vec<_>>().join(",") }, proto::list(o))).collect::<Vec<_>>().join(";")
+            };
+            let passes_exp = if passes.is_empty() {
+                "-".to_string()
+            } else {
+                passes.iter().map(|(p, _)| if p.is_empty() { "-".to_string() } else { p.iter().map(|x| x.to_string()).collect::<Vec<_>>().join(",") }).collect::<Vec<_>>().join(";")
+            };
+            CaseOut {
+                in_line: format!("parse\t{}\t{}", proto::list(&kinds), passes_in),
+                exp_line: format!("passes={}\tlines={}", passes_exp, proto::lines(&snap_lines)),
+                oracle_failures,
+                stats,
+            }
+        }
         other => panic!("unknown stream {other}"),
     }
 }
